@@ -27,6 +27,10 @@
 (*   drv       derived quantities (MinMax weight ranges, bias scales):     *)
 (*             the net version they were computed from                     *)
 (*   seen      summary() / export() / cost have been called                *)
+(*   gumbel    Gumbel sampler (constructor argument of the SuperNet blocks,*)
+(*             option of MPS)                                              *)
+(*   hid       HIDDEN state: neither in the state_dict, nor derived, nor   *)
+(*             configuration (e.g. the position of a private random stream)*)
 (*                                                                         *)
 (* Calls of a history (records, field a):                                  *)
 (*   [a |-> "step", g |-> "net"|"nas"|"all"]  forward+backward+SGD step    *)
@@ -48,7 +52,8 @@ B(v) == v = 1
 (* configurations (each makes TLC exhibit a history that does not resume). *)
 (***************************************************************************)
 ClassOf(impl, kind, c) ==
-    IF c \in {"net", "nas", "bn"} THEN "P"
+    IF c = "hid" THEN "N"                      \* hidden state is by definition none of the three
+    ELSE IF c \in {"net", "nas", "bn"} THEN "P"
     ELSE IF c = "theta" THEN (IF kind = "mps" THEN (IF impl = "theta_attr" THEN "N" ELSE "P") ELSE "D")
     ELSE IF c = "temp"  THEN (IF kind = "mps" THEN (IF impl = "temp_float" THEN "N" ELSE "P") ELSE "C")
     ELSE IF c \in {"hard", "disable", "dc", "rg", "mode", "gumbel", "train_features", "train_rf", "train_dilation"} THEN "C"
@@ -66,16 +71,24 @@ IsConfigCall(impl, kind, a) ==
 (***************************************************************************)
 (* Construction and the effect of the calls                                *)
 (***************************************************************************)
-\* I = [train, hard, disable, dc] constructor arguments
+\* I = [train, hard, gumbel, disable, dc] constructor arguments
 Fresh(kind, I) ==
-    [net |-> 0, nas |-> 0, bn |-> 0, temp |-> 1, hard |-> I.hard, disable |-> I.disable, dc |-> I.dc,
-     rg |-> "both", mode |-> I.train, theta |-> <<0, 1, I.hard, TRUE>>, drv |-> 0, seen |-> FALSE]
+    [net |-> 0, nas |-> 0, bn |-> 0, temp |-> 1, hard |-> I.hard, gumbel |-> I.gumbel, disable |-> I.disable, dc |-> I.dc,
+     rg |-> "both", mode |-> I.train, theta |-> <<0, 1, I.hard, TRUE>>, drv |-> 0, seen |-> FALSE, hid |-> 0]
 
-\* the usual forward pass in the mode the model is in (P = [hasbn, maxv])
+\* a forward pass in this state draws random numbers (Gumbel noise): only in training mode, only when sampling is on
+Stochastic(kind, s, mode) == kind # "pit" /\ s.gumbel /\ ~s.disable /\ mode
+MaxHid == 3
+
+\* the usual forward pass in the mode the model is in (P = [hasbn, maxv, priv])
+\*   hid: HIDDEN state, i.e. state that is neither in the state_dict, nor recomputed from it by a forward pass, nor
+\*   configuration.  The code as read has none (hid stays 0).  P.priv models a sampler that draws its noise from a private
+\*   random stream created by the constructor: its position advances with every stochastic forward pass.
 Fwd(kind, P, s) ==
     [s EXCEPT !.theta = IF kind = "pit" \/ s.disable THEN s.theta ELSE <<s.nas, s.temp, s.hard, s.mode>>,
               !.drv   = s.net,
-              !.bn    = IF s.mode /\ P.hasbn THEN Min2(s.bn + 1, P.maxv) ELSE s.bn]
+              !.bn    = IF s.mode /\ P.hasbn THEN Min2(s.bn + 1, P.maxv) ELSE s.bn,
+              !.hid   = IF P.priv /\ Stochastic(kind, s, s.mode) THEN Min2(s.hid + 1, MaxHid) ELSE s.hid]
 
 Touches(rg, g, grp) == (g = "all" \/ g = grp) /\ (rg = "both" \/ rg = grp)
 
@@ -92,6 +105,7 @@ Next(kind, P, s, a) ==
         (IF a.o = "temp" THEN [s EXCEPT !.temp = a.v]
          ELSE IF a.o = "hard" THEN [s EXCEPT !.hard = B(a.v)]
          ELSE IF a.o = "disable" THEN [s EXCEPT !.disable = B(a.v)]
+         ELSE IF a.o = "gumbel" THEN [s EXCEPT !.gumbel = B(a.v)]
          ELSE IF a.o = "dc" THEN [s EXCEPT !.dc = B(a.v)]
          ELSE s)                              \* options without effect on the observations (train_features ...)
     ELSE IF a.a = "train" THEN [s EXCEPT !.rg = a.g]
@@ -111,22 +125,27 @@ Restore(impl, kind, I, s) ==
          bn      |-> Pick(impl, kind, "bn", s.bn, f.bn),
          temp    |-> Pick(impl, kind, "temp", s.temp, f.temp),
          hard    |-> Pick(impl, kind, "hard", s.hard, f.hard),
+         gumbel  |-> Pick(impl, kind, "gumbel", s.gumbel, f.gumbel),
          disable |-> Pick(impl, kind, "disable", s.disable, f.disable),
          dc      |-> Pick(impl, kind, "dc", s.dc, f.dc),
          rg      |-> Pick(impl, kind, "rg", s.rg, f.rg),
          mode    |-> Pick(impl, kind, "mode", s.mode, f.mode),
          theta   |-> Pick(impl, kind, "theta", s.theta, f.theta),
          drv     |-> Pick(impl, kind, "drv", s.drv, f.drv),
-         seen    |-> FALSE]
+         seen    |-> FALSE,
+         hid     |-> Pick(impl, kind, "hid", s.hid, f.hid)]
 
 (***************************************************************************)
 (* Observations after the usual forward pass in a given mode: what each of *)
 (* them reads.  (PIT reads no theta; its cost reads dc.)                   *)
 (***************************************************************************)
+\* The global random stream is seeded with the same value immediately before the observing forward pass of the original
+\* and of the restored model, so it is NOT state; a private stream is: the noise the forward draws is its position.
 ObsIn(kind, P, s, mode) ==
     LET t == Fwd(kind, P, [s EXCEPT !.mode = mode])
-    IN  [out     |-> <<t.net, t.nas, t.bn, t.theta, t.drv, t.hard, mode>>,
-         cost    |-> <<t.nas, t.theta, t.dc>>,
+        noise == IF Stochastic(kind, s, mode) THEN s.hid ELSE 0
+    IN  [out     |-> <<t.net, t.nas, t.bn, t.theta, t.drv, t.hard, mode, noise>>,
+         cost    |-> <<t.nas, t.theta, t.dc, noise>>,
          summary |-> <<t.nas, t.theta, t.drv>>,
          export  |-> <<t.net, t.nas, t.bn, t.drv>>]
 
